@@ -21,6 +21,11 @@ def opsCore (op : String) (a : List String) : Option String :=
     let bc := H3.Gen.Bits.m_get_base_cell h
     pure ("ok " ++ bv1 (H3.Gen.Bits.hasGoodTopBits h) ++ " " ++ bv1 (H3.Gen.Bits.hasAny7UptoRes h res)
       ++ " " ++ bv1 (H3.Gen.Bits.hasAll7AfterRes h res) ++ " " ++ bv1 (H3.Gen.Bits.hasDeletedSubsequence h bc))
+  | "genfn", [h] => do
+    -- loop functions of h3Index.c as translated (unrolled) by c2lean
+    let h ← parseH h
+    pure ("ok " ++ toString (H3.Gen.Bits.h3LeadingNonZeroDigit h).toNat ++ " " ++ showH (H3.Gen.Bits.h3Rotate60ccw h)
+      ++ " " ++ showH (H3.Gen.Bits.h3Rotate60cw h))
   | "mac", [h, r, d, v] => do
     let h ← parseH h
     let r ← r.toNat?
